@@ -7,6 +7,8 @@ import PsModel.Spec.C17
         stmt = (import (name as|-)…) | (from <module|-> <level> (name as|-)…)
         wrapper = exec | func | cls | try | evalexec   (outermost first)
       → (binds (key m|a mod [attr])…) err
+    C17 (seq <relPath|-> <ctxName> (files …) (host …) (steps (<allowAll> (w <wrapper>…) <stmt>)…))
+      → the result of every step run by ONE evaluator over one symbol table, "; "-separated
     C17 (name <x> <user> <hostBuiltin> <func>)  → user|astFactory|host|pyscriptFunc|evalName
 -/
 namespace PsModel.C17
@@ -101,6 +103,25 @@ def handle (x : Sexp) : String :=
     | some (allow, rel, files, host, prog) =>
       let env : Env := { allowAll := allow, relPath := rel, ctxName := cn, files := files, host := assoc host }
       showRes (run env prog [])
+    | none => "err parse"
+  | .list [.atom "seq", rp, .atom cn, .list (.atom "files" :: fs), .list (.atom "host" :: hs),
+           .list (.atom "steps" :: sts)] =>
+    -- one long-lived evaluator: (steps (<allowAll> (w <wrapper>…) <stmt>)…) → the result of every step, "; "-separated
+    match (do
+      let rel ← optAtom rp
+      let files ← Sexp.mapM? modEntry? fs
+      let host ← Sexp.mapM? modEntry? hs
+      let steps ← Sexp.mapM? (fun x => match x with
+        | .list [a, .list (.atom "w" :: ws), st] => do
+          let allow ← a.bool?
+          let s ← stmt? st
+          let prog ← wrap ws s
+          pure (allow, prog)
+        | _ => none) sts
+      pure (rel, files, host, steps)) with
+    | some (rel, files, host, steps) =>
+      let env : Env := { allowAll := false, relPath := rel, ctxName := cn, files := files, host := assoc host }
+      "; ".intercalate ((runSeq env steps []).map showRes)
     | none => "err parse"
   | .list [.atom "name", .atom n, u, h, f] =>
     match u.bool?, h.bool?, f.bool? with
